@@ -242,13 +242,13 @@ for h in ("split_0", "split_3", "split_8", "take_2_of_1", "take_2_of_5", "take_8
     K(f"K.enc.{h}", "asm__encoding.rs", h, ["C19"], ["take", "take_slice", "try_split_at", "map_chunks", "assert_sorted_no_dup"], kind="bounded", bound="slices of <= 8 bytes", group="enc")
 
 # ------------------------------------------------------------------------------------------------ Verus units
-Vv("V.shift", "shift", ["C01", "C02"], ["Cursor::shift (nested in SymbolTable::new)"], 3,
+Vv("V.shift", "shift", ["C01", "C02"], ["Cursor::shift (nested in SymbolTable::new)"], 3, native_search="shift",
    assumptions=["core::mem::take and u16::wrapping_neg: assumed specifications (documented behaviour)", "Verus integer types are range-checked mathematical integers"])
-Vv("V.srcinfo", "srcinfo", ["C25"], ["SourceInfo::count_lines", "SourceInfo::raw_line_span", "SourceInfo::get_pos_pair"], 3,
+Vv("V.srcinfo", "srcinfo", ["C25"], ["SourceInfo::count_lines", "SourceInfo::raw_line_span", "SourceInfo::get_pos_pair"], 3, native_search="srcinfo",
    assumptions=["SourceInfo::get_line: assumed contract (partition point of the newline table), checked against the real body by the bounded obligations K.asm.get_line_*",
                 "invariant wf (newline table strictly increasing, non-empty, last entry = text length <= isize::MAX) is established by SourceInfo::from_string: assumed (str scanning)",
                 "field src: String represented by an opaque type with a specified len()"])
-Vv("V.timer", "timer", ["C34"], ["TimerDevice::poll_interrupt", "TimerDevice::reset_remaining", "TimerDevice::io_reset"], 8,
+Vv("V.timer", "timer", ["C34"], ["TimerDevice::poll_interrupt", "TimerDevice::reset_remaining", "TimerDevice::io_reset"], 8, native_search="timer",
    assumptions=["TimerDevice::try_generate_time (rand crate): assumed contract 'result inside the configured range, nothing else changes'",
                 "ranges containing 0 are outside the interval lemma's precondition (stated)", "Interrupt::vectored represented by its contract (K.device.interrupt_leaf)"])
 
